@@ -656,9 +656,14 @@ def pattern_consti32(context, tree):
 
 
 @rvcisa.pattern(
-    "reg", "CONSTI32", size=3, condition=lambda t: t.value < 0x20000
+    "reg",
+    "CONSTI32",
+    size=3,
+    condition=lambda t: t.value in range(-0x20000, 0x1F800)
+    and t.value not in range(-2048, 2048),
 )
 def pattern_consti32_2(context, tree):
+    # c.lui takes a non-zero signed 6 bits immediate (after rounding):
     d = context.new_reg(RiscvRegister)
     c0 = tree.value
     if (c0 & 0x800) != 0:
@@ -700,7 +705,7 @@ def pattern_subi32(context, tree, c0, c1):
     "reg",
     "ADDI32(reg, CONSTI32)",
     size=1,
-    condition=lambda t: t.children[1].value < 256,
+    condition=lambda t: t.children[1].value in range(-256, 256),
 )
 def pattern_addi32_1(context, tree, c0):
     d = context.new_reg(RiscvRegister)
@@ -713,7 +718,7 @@ def pattern_addi32_1(context, tree, c0):
     "reg",
     "ADDI32(CONSTI32, reg)",
     size=1,
-    condition=lambda t: t.children[0].value < 256,
+    condition=lambda t: t.children[0].value in range(-256, 256),
 )
 def pattern_addi32_2(context, tree, c0):
     d = context.new_reg(RiscvRegister)
@@ -785,7 +790,12 @@ def pattern_ldri32(context, tree, c0):
     return d
 
 
-@rvcisa.pattern("reg", "LDRI32(ADDI32(reg, CONSTI32))", size=1)
+@rvcisa.pattern(
+    "reg",
+    "LDRI32(ADDI32(reg, CONSTI32))",
+    size=1,
+    condition=lambda t: t.children[0].children[1].value in range(-2048, 2048),
+)
 def pattern_ldri32_addi32(context, tree, c0):
     d = context.new_reg(RiscvRegister)
     c1 = tree.children[0].children[1].value
@@ -807,7 +817,7 @@ def pattern_stri32(self, tree, c0, c1):
     "stm",
     "STRI32(ADDI32(reg, CONSTI32), reg)",
     size=1,
-    condition=lambda t: t.children[0].children[1].value < 256,
+    condition=lambda t: t.children[0].children[1].value in range(-256, 256),
 )
 def pattern_stri32_addi32(context, tree, c0, c1):
     # TODO: something strange here: when enabeling this rule, programs
